@@ -89,7 +89,23 @@ def concretize(model, v):
     if isinstance(v, (int, str, bool, float)) or v is None:
         return v
     if isinstance(v, lib.SMap):
-        raise NotConstructible('symbolic map')
+        return smap(model, v)
+    from . import envmodel as E
+    if isinstance(v, E.EnvConfig):
+        out = {'__config__': v.name, 'tables': {}, 'values': {}, 'funcs': {}}
+        for k, t in v.tables.items():
+            out['tables'][k] = concretize(model, t)
+        for k, x in v.values.items():
+            out['values'][k] = concretize(model, x)
+        for k, f in v.funcs.items():
+            out['funcs'][k] = func_interp(model, getattr(f, 'uf', None))
+        return out
+    if isinstance(v, E.MatchVal):
+        return {'__match__': True, 'string': concretize(model, v.string), 'start': concretize(model, v.start),
+                'end': concretize(model, v.end), 'groups': {str(k): concretize(model, g) for k, g in v.groups.items()},
+                'full': v.full}
+    if isinstance(v, (E.ConfigAttr, E.CompiledPattern)):
+        return {'__opaque__': repr(v)}
     if isinstance(v, lib.PyDecimal):
         return {'__decimal__': str(v.value)}
     raise NotConstructible(type(v).__name__)
@@ -108,3 +124,56 @@ def _elem(model, e, kind):
     if kind == STR:
         return e.as_string()
     return str(e)
+
+
+def _pyval(r):
+    if z3.is_int_value(r):
+        return r.as_long()
+    if z3.is_string_value(r):
+        return r.as_string()
+    if z3.is_true(r):
+        return True
+    if z3.is_false(r):
+        return False
+    if z3.is_rational_value(r):
+        f = r.as_fraction()
+        return {'__real__': [f.numerator, f.denominator]}
+    return str(r)
+
+
+def func_interp(model, decl):
+    """finite description of an uninterpreted function in the model: {'entries': [[args..., value]], 'else': v}"""
+    if decl is None or not hasattr(model, 'decls'):
+        return {'entries': [], 'else': None}
+    try:
+        fi = model[decl]
+    except Exception:
+        fi = None
+    if fi is None:
+        return {'entries': [], 'else': None}
+    entries = []
+    try:
+        for i in range(fi.num_entries()):
+            e = fi.entry(i)
+            entries.append([_pyval(e.arg_value(j)) for j in range(e.num_args())] + [_pyval(e.value())])
+        els = fi.else_value()
+        els = _pyval(els) if els is not None and (z3.is_int_value(els) or z3.is_string_value(els) or z3.is_true(els) or z3.is_false(els)) else None
+    except Exception:
+        els = None
+    return {'entries': entries, 'else': els}
+
+
+def smap(model, m):
+    has = getattr(m, 'has_decl', None)
+    get = getattr(m, 'get_decl', None)
+    h = func_interp(model, has) if has is not None else {'entries': [], 'else': True}
+    g = func_interp(model, get)
+    keys = {e[0] for e in h['entries']} | {e[0] for e in g['entries']}
+    table = {}
+    for k in sorted(keys, key=repr):
+        kt = z3.StringVal(k) if isinstance(k, str) else z3.IntVal(k)
+        present = True if has is None else z3.is_true(model.eval(has(kt), model_completion=True))
+        if present:
+            table[k] = _pyval(model.eval(get(kt), model_completion=True))
+    return {'__table__': [[k, v] for k, v in table.items()], 'default_present': bool(h['else']) if has is not None else True,
+            'default_value': g['else']}
